@@ -288,3 +288,14 @@ M("C13", "post-params-dropped", "c2profile.py", "                if params:\n   
 M("C13", "stage-attached-unconditionally", "c2profile.py", "        profile.set_non_empty_config_block(\"stage\", stage)", "        profile.set_config_block(\"stage\", stage)", "C13.R6")
 M("C13", "non-empty-guard-removed", "c2profile.py", "        if config_block.tree.children:\n            self.set_config_block(option, config_block)", "        self.set_config_block(option, config_block)", "C13.R6")
 T("C13", "twin-pass-bytes", "c2profile.py", "                        # log.debug(f\"{k} -> {v}\")\n                        v = repr(v)[2:-1]\n                        block_steps[_build].append((k.lower(), v))", "                        # log.debug(f\"{k} -> {v}\")\n                        v = repr(v)[2:-1]\n                        block_steps[_build].append((k.lower(), v))  # escaped")
+
+# =============================================================================== C09
+M("C09", "tell-header-4", "xordecode.py", "        return self.fh.tell() - (self.nonce_offset + 8)", "        return self.fh.tell() - (self.nonce_offset + 4)", "C09.R1")
+M("C09", "seek-forgets-header", "xordecode.py", "            return self.fh.seek(offset + self.nonce_offset + 8, whence)", "            return self.fh.seek(offset + self.nonce_offset, whence)", "C09.R1")
+M("C09", "size-relation-12", "xordecode.py", "        if decoded_size + i + 8 == real_size:", "        if decoded_size + i + 12 == real_size:", "C09.R1")
+M("C09", "giveback-regression", "xordecode.py", "            self.fh.seek(n - len(data), io.SEEK_CUR)\n", "", "C09.R2")
+M("C09", "read0-regression", "xordecode.py", "        if n == 0:\n            return data\n        nonce = self.read_nonce()", "        nonce = self.read_nonce()", "C09.R2")
+M("C09", "plaintext-chaining", "xordecode.py", "            data += xor(chunk, nonce)\n            nonce = chunk", "            data += xor(chunk, nonce)\n            nonce = data[-4:]", "C09.R3")
+M("C09", "first-candidate-unvalidated", "xordecode.py", "            if pe.find_mz_offset(cast(BinaryIO, xf)) is not None:\n                xf.seek(0)\n                return xf", "            xf.seek(0)\n            return xf", "C09.R4")
+M("C09", "no-rewind", "xordecode.py", "                xf.seek(0)\n                return xf", "                return xf", "C09.R4")
+T("C09", "twin-header-const", "xordecode.py", "        return self.fh.tell() - (self.nonce_offset + 8)", "        return self.fh.tell() - self.nonce_offset - 8")
